@@ -36,13 +36,13 @@ theorem nodup_index {α β : Type} (f : α → β) : ∀ (l : List α) (i j : Na
         rw [nodup_index f l i j a b hn.2 hi hj hf]
 
 section
-variable {c : Bool} {inst : Instance} {dom : List Nat}
+variable {c : Bool} {inst : Instance} {dom : List Nat} {fx : Bool}
 
-theorem Inv.index_inj {s : St} (hi : Inv c inst dom s) {i j : Nat} {a b : Node}
+theorem Inv.index_inj {s : St} (hi : Inv c inst dom fx s) {i j : Nat} {a b : Node}
     (h1 : s.graph[i]? = some a) (h2 : s.graph[j]? = some b) (h : a.goal = b.goal) : i = j :=
   nodup_index (·.goal) s.graph i j a b hi.nodup h1 h2 h
 
-theorem Inv.defFun {s : St} (hi : Inv c inst dom s) {k : Nat} {v v' : V}
+theorem Inv.defFun {s : St} (hi : Inv c inst dom fx s) {k : Nat} {v v' : V}
     (h1 : Def s k v) (h2 : Def s k v') : v = v' := by
   cases h1 with
   | inl h1 =>
@@ -71,19 +71,19 @@ theorem Inv.defFun {s : St} (hi : Inv c inst dom s) {k : Nat} {v v' : V}
       cases hn'
       exact hv.symm.trans hv'
 
-theorem Inv.defVal {s : St} (hi : Inv c inst dom s) {k : Nat} {v : V} (h : Def s k v) :
-    v = top c ∨ v = bot c := by
+theorem Inv.defVal {s : St} (hi : Inv c inst dom fx s) {k : Nat} {v : V} (h : Def s k v) :
+    v = top c ∨ v = bot c ∨ v = .ambig := by
   cases h with
   | inl h =>
     cases hi.cacheOK k v h with
     | inl h => exact Or.inl h.1
-    | inr h => exact Or.inr h.1
+    | inr h => exact Or.inr (Or.inl h.1)
   | inr h =>
     obtain ⟨i, n, hn, _, hv⟩ := h
     rw [← hv]
     exact hi.val i n hn
 
-theorem Inv.defBot {s : St} (hi : Inv c inst dom s) {k : Nat} (h : Def s k (bot c)) : ¬ Tgt c inst k := by
+theorem Inv.defBot {s : St} (hi : Inv c inst dom fx s) {k : Nat} (h : Def s k (bot c)) : ¬ Tgt c inst k := by
   cases h with
   | inl h =>
     cases hi.cacheOK k _ h with
@@ -94,21 +94,32 @@ theorem Inv.defBot {s : St} (hi : Inv c inst dom s) {k : Nat} (h : Def s k (bot 
     rw [← hg]
     exact hi.approx i n hn hv
 
-theorem Inv.defTop {s : St} (hi : Inv c inst dom s) {k : Nat} {v : V} (h : Def s k v) (ht : Tgt c inst k) :
-    v = top c := by
-  cases hi.defVal h with
-  | inl e => exact e
-  | inr e => rw [e] at h; exact absurd ht (hi.defBot h)
+theorem Inv.defTop {s : St} (hi : Inv c inst dom fx s) {k : Nat} {v : V} (h : Def s k v) (ht : Tgt c inst k) :
+    v = top c ∨ v = .ambig := by
+  rcases hi.defVal h with e | e | e
+  · exact Or.inl e
+  · rw [e] at h; exact absurd ht (hi.defBot h)
+  · exact Or.inr e
+
+/-- the state holds `x` optimistically: at the optimistic value, or as `ambig` -/
+def DefOpt (c : Bool) (s : St) (x : Nat) : Prop := Def s x (top c) ∨ Def s x .ambig
+
+theorem Inv.defOpt_of_ne_bot {s : St} (hi : Inv c inst dom fx s) {k : Nat} {v : V} (h : Def s k v)
+    (hne : v ≠ bot c) : DefOpt c s k := by
+  rcases hi.defVal h with e | e | e
+  · rw [e] at h; exact Or.inl h
+  · exact absurd e hne
+  · rw [e] at h; exact Or.inr h
 
 theorem InG.unfold {s : St} {x : Nat} (h : InG c inst s x) :
-    Def s x (top c) ∨ (Undef s x ∧ J c inst (InG c inst s) x) := by
+    DefOpt c s x ∨ (Undef s x ∧ J c inst (InG c inst s) x) := by
   obtain ⟨S, hS, hx⟩ := h
   cases hS x hx with
   | inl h => exact Or.inl h
   | inr h => exact Or.inr ⟨h.1, J.mono (fun j hj => ⟨S, hS, hj⟩) h.2⟩
 
 theorem InG.coind {s : St} (S : Nat → Prop)
-    (hS : ∀ x, S x → Def s x (top c) ∨ (Undef s x ∧ J c inst (fun j => S j ∨ InG c inst s j) x)) :
+    (hS : ∀ x, S x → DefOpt c s x ∨ (Undef s x ∧ J c inst (fun j => S j ∨ InG c inst s j) x)) :
     ∀ k, S k → InG c inst s k := by
   intro k hk
   refine ⟨fun j => S j ∨ InG c inst s j, ?_, Or.inl hk⟩
@@ -126,32 +137,33 @@ theorem def_or_undef (s : St) (k : Nat) : (∃ v, Def s k v) ∨ Undef s k := by
   · exact Or.inr (fun v hv => h ⟨v, hv⟩)
 
 /-- the true target lies inside every relative fixed point (the valuation is optimistic) -/
-theorem Inv.tgt_sub_InG {s : St} (hi : Inv c inst dom s) {k : Nat} (h : Tgt c inst k) : InG c inst s k := by
+theorem Inv.tgt_sub_InG {s : St} (hi : Inv c inst dom fx s) {k : Nat} (h : Tgt c inst k) : InG c inst s k := by
   refine InG.coind (Tgt c inst) ?_ k h
   intro x hx
   cases def_or_undef s x with
   | inl hd =>
     obtain ⟨v, hv⟩ := hd
-    have := hi.defTop hv hx
-    rw [this] at hv
-    exact Or.inl hv
+    left
+    cases hi.defTop hv hx with
+    | inl e => rw [e] at hv; exact Or.inl hv
+    | inr e => rw [e] at hv; exact Or.inr hv
   | inr hu => exact Or.inr ⟨hu, J.mono (fun j hj => Or.inl hj) hx.unfold⟩
 
 /-- extending the valuation consistently keeps the relative fixed point -/
-theorem InG.mono {s s' : St} (hi' : Inv c inst dom s') (hext : ∀ k v, Def s k v → Def s' k v)
+theorem InG.mono {s s' : St} (hi' : Inv c inst dom fx s') (hext : ∀ k v, Def s k v → Def s' k v)
     (hlow : ∀ k, Undef s k → Def s' k (bot c) → ¬ InG c inst s k) {k : Nat} (h : InG c inst s k) :
     InG c inst s' k := by
   refine InG.coind (InG c inst s) ?_ k h
   intro x hx
   cases hx.unfold with
-  | inl hd => exact Or.inl (hext x _ hd)
+  | inl hd => exact Or.inl (hd.imp (hext x _) (hext x _))
   | inr hu =>
     cases def_or_undef s' x with
     | inl hd =>
       obtain ⟨v, hv⟩ := hd
-      cases hi'.defVal hv with
-      | inl e => rw [e] at hv; exact Or.inl hv
-      | inr e => rw [e] at hv; exact absurd hx (hlow x hu.1 hv)
+      by_cases e : v = bot c
+      · rw [e] at hv; exact absurd hx (hlow x hu.1 hv)
+      · exact Or.inl (hi'.defOpt_of_ne_bot hv e)
     | inr hu' => exact Or.inr ⟨hu', J.mono (fun j hj => Or.inl hj) hu.2⟩
 
 /-! ### stack extension -/
@@ -174,25 +186,28 @@ theorem StackExt.flag {a b : List StackEntry} (h : StackExt a b) {d : Nat} (hf :
 
 theorem Step.refl (s : St) (lb : Min) : Step c inst s s lb :=
   ⟨⟨[], by simp, fun n hn => by cases hn⟩, StackExt.refl _, fun _ _ h => h, fun _ _ h => h,
-   fun k hu hd => absurd hd (hu _), rfl⟩
+   fun k hu hd => absurd hd (hu _), rfl, id, fun q => ⟨q, id⟩⟩
 
 theorem Step.weaken {s s' : St} {lb lb' : Min} (h : Step c inst s s' lb) (hle : MinLe lb' lb) :
     Step c inst s s' lb' := by
   obtain ⟨new, hg, hn⟩ := h.graph
   exact ⟨⟨new, hg, fun n hm => ⟨(hn n hm).1, hle.trans (hn n hm).2⟩⟩, h.stack, h.cacheExt, h.ext, h.low,
-    h.cacheMode⟩
+    h.cacheMode, h.intr, h.quiet⟩
 
-theorem Step.inG {s s' : St} {lb : Min} (h : Step c inst s s' lb) (hi' : Inv c inst dom s') {k : Nat}
+theorem Step.inG {s s' : St} {lb : Min} (h : Step c inst s s' lb) (hi' : Inv c inst dom fx s') {k : Nat}
     (hk : InG c inst s k) : InG c inst s' k :=
   InG.mono hi' h.ext h.low hk
 
 theorem Step.trans {s s' s'' : St} {m1 m2 : Min} (h1 : Step c inst s s' m1) (h2 : Step c inst s' s'' m2)
-    (hle : MinLe m2 m1) (hi' : Inv c inst dom s') (hi'' : Inv c inst dom s'') : Step c inst s s'' m2 := by
+    (hle : MinLe m2 m1) (hi' : Inv c inst dom fx s') (hi'' : Inv c inst dom fx s'') : Step c inst s s'' m2 := by
   obtain ⟨new1, hg1, hn1⟩ := h1.graph
   obtain ⟨new2, hg2, hn2⟩ := h2.graph
   refine ⟨⟨new1 ++ new2, by rw [hg2, hg1, List.append_assoc], ?_⟩, h1.stack.trans h2.stack,
     fun k v h => h2.cacheExt k v (h1.cacheExt k v h), fun k v h => h2.ext k v (h1.ext k v h), ?_,
-    h2.cacheMode.trans h1.cacheMode⟩
+    h2.cacheMode.trans h1.cacheMode, fun e => h2.intr (h1.intr e), fun q => by
+      obtain ⟨q1, i1⟩ := h1.quiet q
+      obtain ⟨q2, i2⟩ := h2.quiet q1
+      exact ⟨q2, fun e => i2 (i1 e)⟩⟩
   · intro n hn
     cases List.mem_append.mp hn with
     | inl h => exact ⟨(hn1 n h).1, hle.trans (hn1 n h).2⟩
@@ -223,16 +238,22 @@ theorem Wit.step {s s' : St} {lb lb' m : Min} {j : Nat} (h : Wit c inst s lb j) 
     exact hn
 
 theorem Fact.step {s0 s1 s' s'' : St} {m0 m' m'' : Min} {g : Nat} {v : V}
-    (h : Fact c inst s1 s' m' g v) (h0 : Step c inst s0 s1 m0) (hi1 : Inv c inst dom s1)
+    (h : Fact c inst s1 s' m' g v) (h0 : Step c inst s0 s1 m0) (hi1 : Inv c inst dom fx s1)
     (hs : Step c inst s' s'' m'') (hle : MinLe m'' m') : Fact c inst s0 s'' m'' g v := by
   cases h with
   | inl h => exact Or.inl ⟨h.1, h.2.step hs hle⟩
-  | inr h => exact Or.inr ⟨h.1, h.2.1, fun hin => h.2.2 (h0.inG hi1 hin)⟩
+  | inr h =>
+    cases h with
+    | inl h => exact Or.inr (Or.inl ⟨h.1, h.2.1, fun hin => h.2.2 (h0.inG hi1 hin)⟩)
+    | inr h => exact Or.inr (Or.inr ⟨h.1, hs.intr h.2⟩)
 
-theorem Fact.ne_ambig {s0 s' : St} {m' : Min} {g : Nat} (h : Fact c inst s0 s' m' g .ambig) : False := by
-  cases h with
-  | inl h => exact top_ne_ambig c h.1.symm
-  | inr h => exact bot_ne_ambig c h.1.symm
+/-- an ambiguous answer means that solving was interrupted -/
+theorem Fact.ambig {s0 s' : St} {m' : Min} {g : Nat} (h : Fact c inst s0 s' m' g .ambig) :
+    s'.interrupted = true := by
+  rcases h with h | h | h
+  · exact absurd h.1.symm (top_ne_ambig c)
+  · exact absurd h.1.symm (bot_ne_ambig c)
+  · exact h.2
 
 end
 
